@@ -23,8 +23,9 @@ Property theorems only; the proofs live in `Lemmas/C06*.lean`.
 * **Final** (`C06_query`, `C06_layout_irrelevant`, `C06_paren_anywhere`): `Eval.query` on a
   rendered query answers exactly `[denote e]`.
 
-`Represents`, `FoldR`, `LitsOK`, `RoundOK`, `Outcome` are defined in `Lemmas/C06Defs.lean`,
-the shift-reduce machine in `Lemmas/C06Shift.lean`.
+`Represents`, `RepresentsL`, `FoldR`, `LitsOK`, `RoundOK`, `Outcome` are defined in
+`Lemmas/C06Defs.lean`, the shift-reduce machine in `Lemmas/C06Shift.lean`, `toks`, `LayoutOK`,
+`QueryLayoutOK` in `Lemmas/C06Lex.lean`.
 -/
 
 namespace Anything.Props.C06
@@ -127,13 +128,13 @@ example :
 property's side conditions (`LayoutOK`: blanks are white space — any number of spaces, tabs
 or other white-space characters, or nothing — and a binary `+`/`-` directly followed by an
 unsigned literal is followed by at least one blank), the lexer produces, on the rendering of `e`
-followed by any text that lexes to `ts` and starts with a blank or a closing delimiter or an
-operator, exactly the in-order token list `toks e ws` of `e` — one WHITESPACE token per
-non-empty blank — followed by `ts`. -/
-theorem C06_lex_render (e : NExpr) (ws : Layout) (rest : List Char) (ts : List Token)
-    (h : LayoutOK e ws) (hs : ExprStop rest) (hrest : Lexes rest ts) :
-    Lexer.lex ((Arith.render e ws).1 ++ rest) = toks e ws ++ ts :=
-  lexes_lex (lex_e e ws rest ts h hs hrest)
+followed by any text `rest` that is empty or starts with a blank, a closing delimiter or an
+operator (`ExprStop`), exactly the in-order token list `toks e ws` of `e` — one WHITESPACE token
+per non-empty blank — followed by the tokens of `rest`. -/
+theorem C06_lex_render (e : NExpr) (ws : Layout) (rest : List Char)
+    (h : LayoutOK e ws) (hs : ExprStop rest) :
+    Lexer.lex ((Arith.render e ws).1 ++ rest) = toks e ws ++ Lexer.lex rest :=
+  lexes_lex (lex_e e ws rest _ h hs (lexes_lex_self rest))
 
 /-- **C06 (lexer on rendered queries).** The token list of a whole rendered query: leading
 blank, the tokens of the expression, trailing blank. -/
@@ -172,7 +173,18 @@ theorem C06_parse_render (e : NExpr) (ws : Layout) (hwf : WF e) (hl : QueryLayou
       forest.filter (fun t => t.kind != .WHITESPACE) = [x] ∧ Represents x e := by
   obtain ⟨forest, hp, hF⟩ := parse_render e ws hwf hl
   obtain ⟨x, hx, hr⟩ := forestOK_filter hF
-  exact ⟨forest, x, hp, hx, hr⟩
+  exact ⟨forest, x, hp, hx, repL_to_rep hr⟩
+
+/-- **C06 (parser on renderings, with levels).** The tree is moreover *levelled*: all operators
+of any one OPERATION node, at any depth, have the same priority (`RepresentsL`, which implies
+`Represents`) — the tree has exactly one node per maximal run of equal-priority operators, as the
+documented grammar prescribes. -/
+theorem C06_parse_render_levels (e : NExpr) (ws : Layout) (hwf : WF e) (hl : QueryLayoutOK e ws) :
+    ∃ forest x, Grammar.parseRoot (renderQuery e ws) = .ok forest ∧
+      forest.filter (fun t => t.kind != .WHITESPACE) = [x] ∧ RepresentsL x e ∧ Represents x e := by
+  obtain ⟨forest, hp, hF⟩ := parse_render e ws hwf hl
+  obtain ⟨x, hx, hr⟩ := forestOK_filter hF
+  exact ⟨forest, x, hp, hx, hr, repL_to_rep hr⟩
 
 /-- `C06_parse_render` with the position of the blanks made explicit: blank leaves, the tree,
 blank leaves. -/
@@ -180,7 +192,19 @@ theorem C06_parse_render_shape (e : NExpr) (ws : Layout) (hwf : WF e) (hl : Quer
     ∃ forest lead x trail, Grammar.parseRoot (renderQuery e ws) = .ok forest ∧
       forest = lead ++ [x] ++ trail ∧ WSTrees lead ∧ WSTrees trail ∧ Represents x e := by
   obtain ⟨forest, hp, Wt, x, Wt', hf, h1, h2, hx⟩ := parse_render e ws hwf hl
-  exact ⟨forest, Wt, x, Wt', hp, hf, h1, h2, hx⟩
+  exact ⟨forest, Wt, x, Wt', hp, hf, h1, h2, repL_to_rep hx⟩
+
+/-- Test (labelled as a test): the model's parser on one concrete rendering with tabs, double
+blanks, no blanks around `*` and a trailing blank — the leading blank ends up inside the
+OPERATION node, the trailing one beside it. -/
+example :
+    let e := NExpr.bin .mul (.paren (.bin .add (.lit (natLit [1])) (.lit (natLit [2]))))
+      (.lit (natLit [3]))
+    let ws : Layout := [[' ', '\t'], [' '], [], [' ', ' '], ['\t'], [], [], [' ']]
+    String.ofList (renderQuery e ws) = " \t( 1+  2\t)*3 " ∧
+    (Grammar.parseRoot (renderQuery e ws)).toOption.map (fun f => f.map Tree.kind) =
+      some [.OPERATION, .WHITESPACE] := by
+  decide +kernel
 
 /-! ## Final — the whole pipeline -/
 
@@ -193,6 +217,12 @@ theorem C06_query (cfg : Cfg) (e : NExpr) (ws : Layout) (hwf : WF e) (hl : Query
     (hlit : LitsOK e) (hro : RoundOK e) :
     QueryOutcome (denote e) (Eval.query cfg (renderQuery e ws)) :=
   query_render cfg e ws hwf hl hlit hro
+
+/-- Non-vacuity for *every* expression: the default layout (one space at every blank position,
+also at both ends) is admissible for every well-formed expression, so the layout hypothesis of
+`C06_parse_render`, `C06_query`, `C06_layout_irrelevant` is always satisfiable. -/
+theorem C06_default_layout_ok (e : NExpr) (h : WF e) : QueryLayoutOK e [] :=
+  queryLayoutOK_nil e h
 
 /-- Value form of `C06_query`. -/
 theorem C06_query_ok (cfg : Cfg) (e : NExpr) (ws : Layout) (v : Rat) (hwf : WF e)
